@@ -114,7 +114,44 @@ CHECKS['C20'] = {
     'technique': 'bounded exhaustive exploration (all pairs / equality-graph cliques / call histories) against a reference model',
 }
 
+CHECKS['C16'] = {
+    'text': 'resize_array over every (shape, new shape) of small alphabets in 1-4 dimensions x every offset x 5 pad '
+            'modes x 2 directions x pad constants x dtype / out / layout deviations (<= 2 quick, <= 3 thorough): '
+            'the full matrix (all contents by linearity/affinity) equals an index reference written from the '
+            'documented formulas and numpy.pad; adjoint direction = transpose; inadmissible paddings raise '
+            'ValueError; extend-then-crop is the identity. ResizingOperator over domains x ran_shp / range x '
+            'offsets x discr_kwargs: range geometry, forward matrix, derivative, inverse, and the adjoint '
+            'identity in the measured weighted inner products; 17 documented argument rejections.',
+    'note': 'exact comparison; bounded shapes (1-d up to 6 -> 12, 2-d up to 4^2 -> 7^2, 3-d up to 3^3 -> 5^3); '
+            'cases the documentation leaves open are counted as unspecified',
+    'technique': 'bounded exhaustive configuration-space exploration; linearity decides all array contents via the full matrix',
+}
+CHECKS['C17'] = {
+    'text': 'All 86 NumPy ufunc objects x methods (__call__, reduce, accumulate, outer, at, reduceat) x 5 dtypes x 18 '
+            'element kinds (tensor / discretized / power space, weighted variants) x operand mixes x out kinds x '
+            'keyword options (every axis subset, dtype, keepdims, where, initial, order, casting): result bit-identical '
+            'to NumPy on the underlying arrays, same kind of space with NumPy shape and dtype, out returned and '
+            'written, operands untouched; legacy x.ufuncs interface; wrapping / memory sharing; histories of '
+            'in-place operations (depth 2, 3 thorough) against an ndarray mirror.',
+    'note': 'combinations NumPy itself refuses are not applicable; documented refusals (reduceat, keepdims, outer '
+            'with non-elements on discretized elements) must be clean errors; weighting propagation is only '
+            'required not to make an admissible call fail',
+    'technique': 'bounded exhaustive configuration-space and history exploration, NumPy as reference model',
+}
+CHECKS['C19'] = {
+    'text': 'Rotation utilities over all ordered orientation pairs; all detector classes; Parallel2d/3dAxis/3dEuler, '
+            'FanBeam, ConeBeam (helical pitch, curved detectors, shift functions) over all configurations with <= 2 '
+            '(quick) / <= 3 (thorough) deviations from the class default in 10 option dimensions (orientation, how '
+            'the initial system is given incl. frommatrix, translation, radii, curvature, pitch, shift functions, '
+            'angle range, input type, check_bounds); 12 angles x 5 detector parameters per axis evaluated singly and '
+            'through ~20 vectorised calling conventions; slicing; factories over 9 volumes (detector coverage of '
+            'every volume corner at every angle). Oracle: independent rigid-motion model built from the docstrings.',
+    'note': 'tolerance 1e-12; astra-dependent functions skipped (astra absent); shapes whose documentation is '
+            'self-contradictory counted as unspecified',
+    'technique': 'bounded exhaustive (deviation-bounded) configuration-space exploration against a reference model',
+}
+
 _PENDING = 'check under construction in this session; not claimed until it runs quietly on the unchanged tree'
 NOT_APPLICABLE = dict((p, _PENDING) for p in
                       ['C01', 'C02', 'C04', 'C06', 'C11', 'C12',
-                       'C14', 'C15', 'C16', 'C17', 'C18', 'C19'])
+                       'C14', 'C15', 'C18'])
